@@ -24,6 +24,11 @@ def main(path: str) -> None:
     for c in cases:
         # perturb object addresses: sets of Vars iterate in address order
         keep.append([object() for _ in range(int(c.get("salt", 0)))])
+        if "hist" in c:
+            from harness import lib_history as lh
+
+            out.append(lh.run_case(c["prog"], c["hist"], c.get("ref")))
+            continue
         env = lf.realize(c["prog"])
         res = []
         for req in c["reqs"]:
